@@ -188,9 +188,9 @@ def eval_part(run, tier, b, n, nbin, anp_always):
                 total_q += len(answers)
                 if oe['outcome'] == 'ok' and W['netpols'] and 'true' in answers and 'false' in answers:
                     run.nontrivial(W)
-                # when `list` itself fails on these resources some rule evaluation errors; whether a single query meets that rule
-                # depends on the order in which Go iterates the policy map, so error-vs-verdict is not compared there
-                skip_err = (ol['outcome'] != 'ok')
+                # when `list` itself fails on these resources some rule evaluation errors (a named port meeting an IP destination); the
+                # query must then fail or answer whatever order Go iterates the policy map in - compared with the model like any other
+                skip_err = False
                 terms = ['(%s, %s)' % (c_q(q), 'OSkip' if skip_err else c_ans(a)) for q, a in zip(qs, answers)]
                 cases.append('(mkEC %s %s %s %s %s)' % (cnat(cid), clist([t for _, t in dl]), cbool(cli), cbool(oe['outcome'] == 'ok'), clist(terms)))
                 base = {'kind': 'eval', 'world': W, 'manifests': [m for m, _ in dl], 'mode': 'InsertObject loop (as k8snetpolicy eval)' if cli else 'NewPolicyEngineWithObjects'}
